@@ -4,7 +4,8 @@ from .. import common, roles, lemmas
 from ..roles import P_, param, INFO_TY, ENV_TY, AnchorMissing
 from ..mir import generic_path
 
-ASSERT_VARIANT = "haloswap::router::ExecuteMsg::AssertMinimumReceive"
+def ASSERT_VARIANT(ctx):
+    return ctx.N.exec_enum("router") + "::AssertMinimumReceive"
 
 
 def option_edges(ctx, fn, value_root):
@@ -50,9 +51,10 @@ def flat(rs):
 def target_asset_lemma(ctx, inst):
     """SwapOperation::get_target_asset_info returns the operation's ask asset."""
     P = ctx.P
-    f = lemmas.find_assoc(P, "haloswap::router::SwapOperation", "get_target_asset_info")
-    if f is None:
-        inst.fail("%s:target-lemma:anchor" % inst.id, "-", "-", "anchor-missing: SwapOperation::get_target_asset_info")
+    try:
+        f = ctx.N.target_asset
+    except AnchorMissing as e:
+        inst.fail("%s:target-lemma:anchor" % inst.id, "-", "-", "anchor-missing: %s" % e)
         return None
     ex = common.exit_sites(P, f)
     rs = set()
@@ -82,7 +84,7 @@ def run(ctx):
     acc = rr.acceptor
     body = acc.body
     env = param(acc, ENV_TY)
-    ops_i = common.param_index_of_type(acc, r"^std::vec::Vec<haloswap::router::SwapOperation>$")
+    ops_i = common.param_index_of_type(acc, r"^std::vec::Vec<%s>$" % ctx.N.rx("SwapOperation"))
     min_i = common.param_index_of_type(acc, r"^std::option::Option<cosmwasm_std::\S*Uint128>$")
     to_i = common.param_index_of_type(acc, r"^std::option::Option<cosmwasm_std::\S*Addr>$")
     snd_i = common.param_index_of_type(acc, r"^cosmwasm_std::\S*Addr$")
@@ -92,7 +94,7 @@ def run(ctx):
     recipient = {P_(acc, to_i), P_(acc, snd_i)}
 
     # ---- R1 ------------------------------------------------------------------------------------
-    asserts = [(fn, b, i, v, span) for (fn, b, i, adt, var, v, span) in common.message_sites(P) if adt + "::" + var == ASSERT_VARIANT]
+    asserts = [(fn, b, i, v, span) for (fn, b, i, adt, var, v, span) in common.message_sites(P) if adt + "::" + var == ASSERT_VARIANT(ctx)]
     if len(asserts) != 1 or asserts[0][0].path != acc.path:
         r1.fail("C11.R1:assert-sites", acc.path, acc.span, "AssertMinimumReceive is built at %d site(s) %s; expected exactly one, in the route acceptor" % (
             len(asserts), [a[0].path for a in asserts]))
@@ -158,7 +160,7 @@ def run(ctx):
         pb = pushes[0]
         pv = P.val_call(acc, body, pb)
         pushed = "|".join(sorted(ctx.roots(pv[4][1])))
-        if not pushed.startswith("A:cosmwasm_std::CosmosMsg::Wasm{0=A:cosmwasm_std::WasmMsg::Execute{contract_addr=%s,msg=bin(A:%s{" % (P_(acc, env, ".contract.address"), ASSERT_VARIANT)):
+        if not pushed.startswith("A:cosmwasm_std::CosmosMsg::Wasm{0=A:cosmwasm_std::WasmMsg::Execute{contract_addr=%s,msg=bin(A:%s{" % (P_(acc, env, ".contract.address"), ASSERT_VARIANT(ctx))):
             r1.fail("C11.R1:pushed-message", acc.path, common.span_of_block_term(acc, pb), "the appended message is not the router's own AssertMinimumReceive: %s" % pushed[:200])
         elif not body.edge_dominates(some_e, pb):
             r1.fail("C11.R1:push-region", acc.path, common.span_of_block_term(acc, pb), "the assertion is appended outside the `minimum_receive is Some` region")
@@ -203,9 +205,9 @@ def run(ctx):
         r2.fail("C11.R2:asset", acc.path, aspan.replace("!x", ""), "asset_info ⊢ %s, expected target asset of operations.last()" % sorted(asset_roots))
     else:
         r2.site("asset_info ⊢ get_target_asset_info(operations.last())")
-    prev = [x for x in common.walk(f["prev_balance"]) if x[0] == "call" and isinstance(x[3], str) and generic_path(x[3]).endswith("AssetInfo::query_pool")]
+    prev = [x for x in common.walk(f["prev_balance"]) if x[0] == "call" and ctx.N.is_fn(x[3], "query_pool")]
     pr_roots = set(ctx.roots(f["prev_balance"]))
-    if len(prev) != 1 or len(pr_roots) != 1 or not list(pr_roots)[0].startswith("C:haloswap::asset::AssetInfo::query_pool@"):
+    if len(prev) != 1 or len(pr_roots) != 1 or not list(pr_roots)[0].startswith("C:%s@" % ctx.N.cpath("query_pool")):
         r2.fail("C11.R2:prev-origin", acc.path, aspan.replace("!x", ""), "prev_balance ⊢ %s, expected a balance query made in this call" % sorted(pr_roots))
     else:
         q = prev[0]
@@ -227,7 +229,7 @@ def run(ctx):
     else:
         r2.site("receiver ⊢ to or sender")
     # the last hop's recipient is the same value
-    hops = [(fn, v, span) for (fn, b, i, adt, var, v, span) in common.message_sites(P) if adt + "::" + var == "haloswap::router::ExecuteMsg::ExecuteSwapOperation"]
+    hops = [(fn, v, span) for (fn, b, i, adt, var, v, span) in common.message_sites(P) if adt + "::" + var == ctx.N.exec_enum("router") + "::ExecuteSwapOperation"]
     for fn, v, span in hops:
         tov = dict(v[3])["to"]
         if fn.path != acc.path and not (fn.kind == "closure" and fn.parent == acc.path):
@@ -244,7 +246,7 @@ def run(ctx):
 
     # ---- R4 the assertion (also fixes the roles of the two Uint128 parameters) --------------------------------------
     h = rr.assert_handler
-    asset_p = common.param_index_of_type(h, r"^haloswap::asset::AssetInfo$")
+    asset_p = common.param_index_of_type(h, "^%s$" % ctx.N.rx("AssetInfo"))
     recv_p = common.param_index_of_type(h, r"^cosmwasm_std::\S*Addr$")
     prev_p = min_p = None
     found = False
@@ -278,7 +280,7 @@ def run(ctx):
             continue
         found = True
         sub = subs[0]
-        bal = [x for x in common.walk(sub[4][0]) if x[0] == "call" and isinstance(x[3], str) and generic_path(x[3]).endswith("AssetInfo::query_pool")]
+        bal = [x for x in common.walk(sub[4][0]) if x[0] == "call" and ctx.N.is_fn(x[3], "query_pool")]
         pm = re.match(r"^P:%s#(\d+)$" % re.escape(h.path), "|".join(sorted(ctx.roots(sub[4][1]))))
         mm = re.match(r"^P:%s#(\d+)$" % re.escape(h.path), "|".join(sorted(br)))
         where = common.span_of_block_term(h, g.b)
@@ -307,7 +309,7 @@ def run(ctx):
     # ---- R3 dispatch wiring --------------------------------------------------------------------------------------------
     ex, edge, region, _, callbb = rr.assertion
     cv = P.val_call(ex, ex.body, callbb)
-    msg_i = common.param_index_of_type(ex, r"^haloswap::router::ExecuteMsg$")
+    msg_i = common.param_index_of_type(ex, "^%s$" % re.escape(ctx.N.exec_enum("router")))
     base = P_(ex, msg_i, "~AssertMinimumReceive")
     wants = []
     if asset_p is not None:
